@@ -91,6 +91,7 @@ type Engine struct {
 	trustedUsed map[string]bool
 	havocked    map[string]bool
 	recDefs     map[string]bool
+	symUsed     map[string]int // names already given to symbolic structs/pointers (identity is the name)
 	inLoop      int
 	boxed       map[string]Val
 	notes       []string
@@ -395,10 +396,10 @@ func (e *Engine) symbolic(st *State, t types.Type, name string) Val {
 			return OptV{Nil: e.fresh(name+"_nil", "Bool"), V: e.symbolic(st, u.Elem(), name+"_val"), Elem: u.Elem()}
 		}
 		if _, ok := u.Elem().Underlying().(*types.Struct); ok {
-			return PtrV{Nil: e.fresh(name+"_nil", "Bool"), Elem: u.Elem(), Name: name}
+			return PtrV{Nil: e.fresh(name+"_nil", "Bool"), Elem: u.Elem(), Name: e.uniqSym(name)}
 		}
 	case *types.Struct:
-		return StructV{Typ: u, F: make([]Val, u.NumFields()), Sym: name}
+		return StructV{Typ: u, F: make([]Val, u.NumFields()), Sym: e.uniqSym(name)}
 	case *types.Tuple:
 		var rs TupleV
 		for i := 0; i < u.Len(); i++ {
@@ -407,6 +408,21 @@ func (e *Engine) symbolic(st *State, t types.Type, name string) Val {
 		return rs
 	}
 	return e.opaque(name)
+}
+
+// uniqSym keeps the first use of a name as is (inputs are found by name at
+// replay time) and makes later uses distinct: the name of a symbolic struct or
+// pointer is its identity, and two results of calls to the same function must
+// not denote the same object.
+func (e *Engine) uniqSym(name string) string {
+	if e.symUsed == nil {
+		e.symUsed = map[string]int{}
+	}
+	e.symUsed[name]++
+	if n := e.symUsed[name]; n > 1 {
+		return fmt.Sprintf("%s!s%d", name, n)
+	}
+	return name
 }
 
 // field returns field i of a struct value; lazily symbolic fields are named
@@ -1134,6 +1150,9 @@ func (e *Engine) binop(st *State, op token.Token, x, y Val, t types.Type, xT, yT
 		}
 	case FuncV:
 		if _, ok := y.(OpaqueV); ok && isCmp { // f == nil
+			if a.Nil != "" {
+				return nilCmp(op, a.Nil)
+			}
 			return nilCmp(op, "false")
 		}
 	case OpaqueV:
@@ -1144,6 +1163,9 @@ func (e *Engine) binop(st *State, op token.Token, x, y Val, t types.Type, xT, yT
 			}
 		case FuncV:
 			if isCmp {
+				if b.Nil != "" {
+					return nilCmp(op, b.Nil)
+				}
 				return nilCmp(op, "false")
 			}
 		case PtrV:
